@@ -23,6 +23,7 @@ RULE = ("(repro) generated programs of up to 8 operations from {construct(type, 
         "distinct read-only ops.")
 RULE_EXT = ('Extended as built: seed forms (positional / keyword / numpy integer / cpu+gpu flags / defaults), SWAP observables, seed sensitivity also after loading an older file, read-only programs on states with a non-zero phase auxiliary bias. Rounds 5-6: enumerated basis states used as start chains with overwrite=True (the enumeration asked for afterwards is part of the output); the same seeded statistics call with the same caller-held chains twice; boundary seeds 0, 1, 2^32-1.')
 RULE_EXT += ' Round 10 (after an exception / long time axis): programs with a fit() aborted by an exception followed by a fit that must train; chains of 33-70 steps sampled twice, and the same seeded long-chain sample / statistics call twice on one object.'
+RULE_EXT += ' Round 11 (re-entrant use / feature interactions): fit ops with a busy callback (samples, statistics and a nested fit of another state inside the hooks) remain a function of the seed.'
 RULE = RULE + " " + RULE_EXT
 ASSUMPTIONS = ["CPU generator only (set_random_seed(cpu=True)); a single process", "bitwise comparison (torch.equal / ==)"]
 
